@@ -22,7 +22,7 @@ class Reloc:
 
 
 class Insn:
-    __slots__ = ("addr", "raw", "mnem", "ops", "text", "relocs", "size", "prefixes", "sec")
+    __slots__ = ("addr", "raw", "mnem", "ops", "text", "relocs", "size", "prefixes", "sec", "abs_target", "unresolved")
 
     def __repr__(self):
         return "%x: %s %s" % (self.addr, self.mnem, self.text)
